@@ -1041,7 +1041,9 @@ class CPreProcessor:
             # TODO: check type specifier?
             lhs = expressions.NumericLiteral(lhs, self._int_type, token.loc)
         else:
-            raise NotImplementedError(token.val)
+            self.error(
+                f'Expected an expression, got "{token.val}"', loc=token.loc
+            )
 
         while True:
             # This would be the next operator:
